@@ -593,6 +593,8 @@ def analyse(fn, roles, prog, lib_roles=None, want_kinds=("W", "R"), callsite_goa
                 effs = []
                 if cal in LIB_EFFECTS:
                     effs = [(k, pa, ("arg", la, u)) for (k, pa, la, u) in LIB_EFFECTS[cal]]
+                    if NOSLACK and cal in ("handle_error", "handle_werror"):
+                        effs = [(k, pa, ("const", u)) for (k, pa, la, u) in LIB_EFFECTS[cal]]     # no-slack build: the helpers store one terminator, the length is unused
                 elif prog.resolve(fn, cal) is not None:
                     callee = prog.resolve(fn, cal)
                     rl = (lib_roles or {}).get(callee.name, [])
@@ -766,6 +768,8 @@ COUNT_RESULT = {"safec_vsnprintf_s": (2, 1)}
 def api_base(name):
     return name[1:-4] if name.startswith("_") and name.endswith("_chk") else name
 
+
+NOSLACK = False           # set by the driver while the no-slack configuration is analysed
 
 READONLY_DEST = set()     # library functions that never write through their 'dest' parameter (search / compare / test functions): set by all_roles()
 
